@@ -698,10 +698,15 @@ class SurfaceContainer(AbstractContainer):
             with utl.pool_context(processes=num_procs) as pool:
                 tmp_elem = pool.map(partial(process_tessellate, delta=self.delta, update_delta=update_delta, **kwargs),
                                     self._elements)
-            # The worker processes return copies of the surfaces. Update the surfaces in the container with them instead of
-            # replacing the surfaces; otherwise, the container would not contain the surfaces added by the user any more.
+            # The worker processes return copies of the surfaces. Copy the results into the surfaces (and their tessellation
+            # components and trims) which are in the container instead of replacing them; otherwise, the container would
+            # not contain the objects of the user any more.
             for elem, tmp in zip(self._elements, tmp_elem):
-                elem.__dict__.update(tmp.__dict__)
+                elem._delta = tmp._delta
+                elem._eval_points = tmp._eval_points
+                elem._tsl_component.__dict__.update(tmp._tsl_component.__dict__)
+                for trim, tmp_trim in zip(elem._trims, tmp._trims):
+                    trim.__dict__.update(tmp_trim.__dict__)
                 new_elems.append(elem)
         else:
             for idx in range(len(self._elements)):
